@@ -126,26 +126,30 @@ theorem c41_make_hashable_eq (a b : PyVal) (h : pyEq a b = true) :
     pyEq (makeHashable a) (makeHashable b) = true :=
   mh_eq a b h
 
-/-- non-vacuity (transpose): a struct of two arrays with different element widths -/
+/-- non-vacuity (transpose): a struct of two arrays with different element widths is accepted and well formed -/
 example :
-    let l : Outer := .struct [("a", .array ⟨2, 1⟩ 3), ("b", .array ⟨5, 0⟩ 3)]
-    transposeLayout l = .ok (.array (.struct [("a", ⟨2, 1⟩), ("b", ⟨5, 0⟩)]) 3,
-      [.name "a", .name "b"], [.idx 0, .idx 1, .idx 2]) ∧ WF l := by
+    (transposeLayout (.struct [("a", .array ⟨2, 1⟩ 3), ("b", .array ⟨5, 0⟩ 3)])).toOption =
+      some (.array (.struct [("a", ⟨2, 1⟩), ("b", ⟨5, 0⟩)]) 3, [.name "a", .name "b"], [.idx 0, .idx 1, .idx 2]) ∧
+    (Lay.keys (σ := Inner) (.struct [("a", .array ⟨2, 1⟩ 3), ("b", .array ⟨5, 0⟩ 3)])).Nodup ∧
+    (∀ p ∈ Lay.fields (σ := Inner) (.struct [("a", .array ⟨2, 1⟩ 3), ("b", .array ⟨5, 0⟩ 3)]), p.2.keys.Nodup) := by
   decide
 
-/-- non-vacuity (numeric): -3 at width 4 -/
+/-- non-vacuity (numeric): -3 at width 4; 13 and -13 against 2^2 -/
 example : intToSigned (-3) 4 = 13 ∧ signedToInt 13 4 = some (-3) ∧ alignUp 13 2 = 16 ∧ alignDown (-13) 2 = -16 := by
-  decide
+  refine ⟨?_, ?_, ?_, ?_⟩
+  · rw [intToSigned_eq]; decide
+  · exact signedToInt_nat 13 3 (by decide)
+  · rw [alignUp_eq]; decide
+  · rw [alignDown_eq]; decide
 
-/-- non-vacuity (make_hashable): the F12 witness - two equal sets iterated in different orders, and a
-    dict holding a list and a set -/
+/-- non-vacuity (make_hashable): the F12 witness - two equal sets iterated in different orders; a list is
+    not a tuple; a dict holding a list becomes a frozenset of pairs -/
 example :
-    let i (n : Int) := PyVal.int n
-    pyEq (.set (.cons (i 0) (.cons (i 8) .nil))) (.set (.cons (i 8) (.cons (i 0) .nil))) = true ∧
-    pyEq (.list (.cons (i 1) .nil)) (.tuple (.cons (i 1) .nil)) = false ∧
-    makeHashable (.dict (.cons (.str "k") (.list (.cons (i 1) .nil)) .nil)) =
-      .fset (.cons (.tuple (.cons (.str "k") (.cons (.tuple (.cons (i 1) .nil)) .nil))) .nil) := by
-  decide
+    pyEq (.set (.cons (.int 0) (.cons (.int 8) .nil))) (.set (.cons (.int 8) (.cons (.int 0) .nil))) = true ∧
+    pyEq (.list (.cons (.int 1) .nil)) (.tuple (.cons (.int 1) .nil)) = false ∧
+    pyEq (makeHashable (.dict (.cons (.str "k") (.list (.cons (.int 1) .nil)) .nil)))
+      (.fset (.cons (.tuple (.cons (.str "k") (.cons (.tuple (.cons (.int 1) .nil)) .nil))) .nil)) = true := by
+  simp [pyEq, eqList, subList, PyList.any, PyList.length, makeHashable, mhPairs, mhList]
 
 end TxV.DataHelpers
 
